@@ -102,14 +102,29 @@ def check(ctx):
         ctx.check(ok and bool(inc), "T9-names", f, "%s returns a tag only when it is not in %s" % (fname, table), "generated tags never collide")
     ra = ctx.fn("acting", "Razer.action")
     Z = FuncView(ctx, ra)
-    aps = Z.need(Z.call_nodes("razeables.append"), "razeables.append")
-    ctx.floor("T1-raze:branches", len(aps), 3)
-    gt = Z.tests(lambda t: isinstance(t, ast.BoolOp) and isinstance(t.op, ast.And) and {src(v) for v in t.values} == {"aux.insular", "aux.razeable"})
-    for a in aps:
-        ctx.check(any(Z.dominated_by_edge([a], t, "T") for t in gt), "T1-raze", a.ast, "append guarded by aux.insular and aux.razeable",
-                  "razing must remove only razeable insular clones")
-        lp = [h for h in Z.cfg.nodes if h.kind == "for" and id(a.ast) in {id(x) for x in ast.walk(h.ast)}]
-        ctx.check(bool(lp) and "frame.auxes" in src(lp[0].ast.iter), "T1-raze", a.ast, "candidates come from frame.auxes", "only clones of the named frame")
+    F_ = ctx.cls("framing", "Frame")
+
+    def aux_filters(fn, depth=0):
+        """conditions that select auxiliaries out of a frame's .auxes in fn (and in Frame helper methods it calls)"""
+        out = []
+        for n in ast.walk(fn):
+            if isinstance(n, (ast.ListComp, ast.GeneratorExp)):
+                for g in n.generators:
+                    if "auxes" in src(g.iter):
+                        out.append(" and ".join(sorted(src(i) for i in g.ifs)) if g.ifs else "<all>")
+            elif isinstance(n, ast.For) and "auxes" in src(n.iter):
+                conds = [src(t.test) for t in ast.walk(n) if isinstance(t, ast.If) and ("insular" in src(t.test) or "razeable" in src(t.test))]
+                out.extend(" and ".join(sorted(c.split(" and "))) for c in conds)
+            elif depth < 1 and isinstance(n, ast.Call) and isinstance(n.func, ast.Attribute) and n.func.attr in F_.methods \
+                    and dotted(n.func.value) in ("frame", "self"):
+                out.extend(aux_filters(F_.methods[n.func.attr], depth + 1))
+        return out
+    rf = aux_filters(ra)
+    ctx.check(bool(rf) and all(f == "aux.insular and aux.razeable" for f in rf), "T1-raze", ra,
+              "Razer selects auxes by `aux.insular and aux.razeable` (%d selection site(s): %s)" % (len(rf), sorted(set(rf))),
+              "razing must remove only razeable insular clones of the named frame")
+    ctx.check(any("frame.auxes" in src(n) or "frame." in src(n) for n in ast.walk(ra) if isinstance(n, (ast.For, ast.Call))), "T1-raze", ra,
+              "candidates come from the named frame", "only clones of the named frame")
     pr = Z.need(_framing.call_in_loop(Z, "razeables", "aux.prune"), "aux.prune() for each razeable")
     rmv = Z.call_nodes("frame.auxes.remove")
     ctx.check(bool(rmv), "T1-raze", ra, "razed aux removed from frame.auxes (never runs again)", "a razed clone must not run again")
@@ -119,4 +134,10 @@ def check(ctx):
     ex = P.call_nodes("self.exitAll")
     ctx.check(bool(dl) and bool(ex) and all(d.id in P.reach(ex[0]) for d in dl), "T1-raze", pf, "prune: force exit then del Framer.Names[self.name]",
               "the razed clone's name must become free")
+    pfil = aux_filters(pf)
+    ctx.check(bool(pfil) and all(f == "aux.insular" for f in pfil), "T1-raze", pf,
+              "prune recursively prunes every insular aux of every frame (filters: %s)" % sorted(set(pfil)),
+              "a razed clone must take all its own insular clones with it (statically declared `as mine` clones are insular but "
+              "not razeable): otherwise their names stay registered and the next rear of the same moot collides")
+    ctx.check(bool(_framing.call_in_loop(P, "prunables", "aux.prune")) or "aux.prune()" in src(pf), "T1-raze", pf, "prune recurses into nested clones", "")
     _registry.registry_binding(ctx)
